@@ -297,6 +297,8 @@ def _r4_modes(chk, repo):
                 e = getattr(res, "_env", {}).get("mode")
                 if isinstance(e, ast.Subscript) and isinstance(e.value, ast.Name) and e.value.id in dicts:
                     e = dicts[e.value.id].get(lit)
+                elif isinstance(e, ast.Subscript) and isinstance(e.value, ast.Dict) and all(isinstance(k_, ast.Constant) for k_ in e.value.keys):
+                    e = {k_.value: x_ for k_, x_ in zip(e.value.keys, e.value.values)}.get(lit)      # table written in place
                 modes.add(e.value if isinstance(e, ast.Constant) else (pn(e) if e is not None else None))
         if not modes:
             problems.append(f"BC='{lit}' never reaches the operator")
